@@ -106,7 +106,21 @@ pub fn fonts() -> DocSpec {
     ]));
     let f2 = b.add(Val::dict(vec![("Type", Val::name("Font")), ("Subtype", Val::name("Type0")), ("BaseFont", Val::name("G")), ("Encoding", Val::name("Identity-H")), ("DescendantFonts", Val::Arr(vec![Val::r(cid2)]))]));
     let content = b.add_stream(vec![], b"BT /F0 12 Tf (a) Tj /F1 10 Tf (b) Tj /F2 9 Tf (c) Tj ET".to_vec());
-    let catalog = base(&mut b, vec![], Val::dict(vec![("Font", Val::dict(vec![("F0", Val::r(f0)), ("F1", Val::r(f1)), ("F2", Val::r(f2))]))]), Some(content));
+    // graphics state parameter dictionaries: a font pair [font size], a dash pattern, numbers
+    let gs = b.add(Val::dict(vec![
+        ("Type", Val::name("ExtGState")),
+        ("Font", Val::Arr(vec![Val::r(f1), Val::Int(12)])),
+        ("LW", Val::Int(2)),
+        ("D", Val::Arr(vec![Val::ints(&[3, 2]), Val::Int(0)])),
+        ("CA", Val::Real(0.5)),
+        ("SMask", Val::name("None")),
+    ]));
+    let catalog = base(
+        &mut b,
+        vec![],
+        Val::dict(vec![("Font", Val::dict(vec![("F0", Val::r(f0)), ("F1", Val::r(f1)), ("F2", Val::r(f2))])), ("ExtGState", Val::dict(vec![("GS1", Val::r(gs)), ("GS2", Val::dict(vec![("Font", Val::Arr(vec![Val::r(f0), Val::Real(9.5)]))]))]))]),
+        Some(content),
+    );
     finish_classic(b, catalog)
 }
 
@@ -491,6 +505,12 @@ pub fn dag_misc() -> DocSpec {
         next = b.add(Val::dict(vec![("Type", Val::name("Font")), ("Subtype", Val::name("Type0")), ("BaseFont", Val::name("Dag")), ("Encoding", Val::name("Identity-H")), ("DescendantFonts", Val::Arr(vec![Val::r(via), Val::r(via)]))]));
     }
     let font1 = next;
+    // and with a proper CID font in front of the two Type0 entries of every level
+    let mut next = cid;
+    for _ in 0..depth {
+        next = b.add(Val::dict(vec![("Type", Val::name("Font")), ("Subtype", Val::name("Type0")), ("BaseFont", Val::name("Dag")), ("Encoding", Val::name("Identity-H")), ("DescendantFonts", Val::Arr(vec![Val::r(cid), Val::r(next), Val::r(next)]))]));
+    }
+    let font2 = next;
     // appearance dictionary
     let ap_stream = b.add_stream(vec![("Type".into(), Val::name("XObject")), ("Subtype".into(), Val::name("Form")), ("BBox".into(), rect(0, 0, 10, 10))], b"0 0 m 1 1 l S".to_vec());
     let mut level = ap_stream;
@@ -525,7 +545,7 @@ pub fn dag_misc() -> DocSpec {
             ("Type", Val::name("Page")),
             ("Parent", Val::r(pages)),
             ("MediaBox", rect(0, 0, 100, 100)),
-            ("Resources", Val::dict(vec![("Font", Val::dict(vec![("F1", Val::r(font0)), ("F2", Val::r(font1))])), ("XObject", Val::dict(vec![("Im1", Val::r(g))]))])),
+            ("Resources", Val::dict(vec![("Font", Val::dict(vec![("F1", Val::r(font0)), ("F2", Val::r(font1)), ("F3", Val::r(font2))])), ("XObject", Val::dict(vec![("Im1", Val::r(g))]))])),
             ("Annots", Val::Arr(vec![Val::r(annot)])),
         ]),
     );
